@@ -80,8 +80,21 @@ def bits_groups(tier, seed):
             groups.append({"key": "bits/avx2/%s" % opt, "header": "qr_bits.h", "isa": "avx2", "opt": opt, "std": "c++17", "defs": ["-ffp-contract=off"], "calls": calls})
     return groups
 
+_sym_calls = [0]
+
 def sym_groups(tier, seed):
-    return rat_groups(tier, seed) + bits_groups(tier, seed)
+    """first call of a run: the tier's box.  A second call is flow.standard_run's failing-input search after a
+    model/implementation mismatch: a box twice the quick one with fresh seeds and the same group keys (the full
+    thorough box would cost tens of minutes and the bounds test / oracle already name concrete inputs)."""
+    _sym_calls[0] += 1
+    if _sym_calls[0] == 1:
+        return rat_groups(tier, seed) + bits_groups(tier, seed)
+    gs = {}
+    for sd in (seed, seed + 1):
+        for g in rat_groups("quick", sd) + bits_groups("quick", sd):
+            if g["key"] in gs: gs[g["key"]]["calls"] += g["calls"]
+            else: gs[g["key"]] = g
+    return list(gs.values())
 
 def real_groups(tier, seed):
     rng = random.Random(seed * 104729 + 5)
